@@ -162,6 +162,7 @@ pub fn run(ctx: &Ctx) {
         });
     });
     ctx.set_extra("types_and_serde_capability", json!(*types.lock().unwrap()));
+    crate::weighted::serde_tree_histories(ctx);
 }
 
 pub fn replay(ctx: &Ctx, case: &Value) -> bool {
